@@ -47,6 +47,8 @@ func runC12(c *Ctx) {
 	if !c12Numbering(c, p) {
 		return
 	}
+	// pawn capture patterns are shift expressions, not tables: at least their edge handling is decided
+	c.Floor("C12.R6.WRAP", pa5(c, p, "C12.R6.WRAP", inFuncs("attacks.*")), 2, "one-file bitboard shifts in package attacks")
 	readers := []*c12Reader{
 		c12MatchReader(c, p, "attacks.BishopMoves", true, "attacks.calcBishopAttacks", "attacks.calcRookAttacks"),
 		c12MatchReader(c, p, "attacks.RookMoves", false, "attacks.calcRookAttacks", "attacks.calcBishopAttacks"),
